@@ -147,6 +147,8 @@ def sd_ops(dual):
     # a hintless insertion at / beyond the right end has no covering interval: the container refuses it (it raises);
     # whatever it does, the set must stay the ordered set of the items it accepted
     ops += [("rej", 1.0), ("rej", 1.5)]
+    # the caller continues on a deep copy of the container (a checkpoint): the copy is the same ordered set
+    ops += [("fork",)]
     ops += [("clear",), ("refill",), ("best",)]
     if dual:
         ops.append(("bestlocal",))
@@ -283,6 +285,25 @@ def _sd_history(dual, seq, ops=None, maxlen=None):
                         continue      # a bounded queue may have evicted it at once; retention is judged at the requests
                     if role and not any(p == pr and i is i2 for p, i in ents):
                         msgs.append(f"{ctx}: after the insertion the {role} queue has no entry ({pr!r}, x={i2.GetX()})")
+        elif op[0] == "fork":
+            import copy as _copy
+            memo = {}
+            sd2 = _copy.deepcopy(sd, memo)
+            # the model follows the copy: its items are the copies of the original's items
+            twin = {id(i): memo.get(id(i)) for i in model.items}
+            if any(v is None for v in twin.values()):
+                msgs.append(f"{ctx}: a deep copy of the container does not contain copies of all stored items")
+                return msgs, None, []
+            sd = sd2
+            model.items = [twin[id(i)] for i in model.items]
+            newq, newrole = {}, {}
+            for qid, ents in list(model.q.items()):
+                q2 = id(memo[qid]) if qid in memo else qid       # the copy's queue object stands for the original's
+                newq[q2] = [(pr, twin.get(id(i), i)) for pr, i in ents]
+                if qid in model.role:
+                    newrole[q2] = model.role[qid]
+            model.q, model.role = newq, newrole
+            model.forked = True
         elif op[0] == "rej":
             it = mk(op[1], 2.0, localR(2.0))
             try:
@@ -418,7 +439,7 @@ def _sd_history(dual, seq, ops=None, maxlen=None):
     enabled = [k for k, op in enumerate(ops)
                if (op[0] == "ins" and op[1] not in have) or (op[0] == "dup" and xs_all.count(op[1]) == 1) or (op[0] == "ovw" and op[1] in have and
                                                              next(i for i in model.items if i.GetX() == op[1]).globalR != op[2])
-               or op[0] in ("clear", "refill", "best", "bestlocal", "rej")]
+               or op[0] in ("clear", "refill", "best", "bestlocal", "rej") or (op[0] == "fork" and not getattr(model, "forked", False))]
     return msgs, model, enabled
 
 
